@@ -2,8 +2,8 @@
 """Re-run every registered quick check against each stored seeded change
 (/verif/seeded/<id>/patch.diff) and rewrite /verif/seeded/INDEX.md.
 
-For each seed: git -C /repo apply <patch>; python -m pgv all --no-write; git -C /repo checkout -- .
-Nothing is ever committed to /repo.  Usage: tools/seeds.py [id ...]
+Each patch is applied to a private copy of /repo's working tree (PGV_REPO points the checks at the copy), so the runs go
+in parallel and /repo itself is never touched.  Usage: tools/seeds.py [id ...]
 """
 
 import json
@@ -20,27 +20,41 @@ def sh(cmd, **kw):
     return subprocess.run(cmd, shell=True, capture_output=True, text=True, **kw)
 
 
-def main():
-    ids = sys.argv[1:] or sorted(d for d in os.listdir(SEEDED) if os.path.isfile(os.path.join(SEEDED, d, "patch.diff")))
-    dirty = sh("git -C /repo status --short | grep -v '^??'").stdout.strip()
-    if dirty:
-        print("/repo has uncommitted changes, refusing:\n" + dirty)
-        return 2
-    rows = []
-    for sid in ids:
-        d = os.path.join(SEEDED, sid)
-        patch = os.path.join(d, "patch.diff")
-        meta_path = os.path.join(d, "meta.json")
-        meta = json.load(open(meta_path)) if os.path.exists(meta_path) else {"id": sid}
-        r = sh(f"git -C /repo apply {patch}")
+def run_one(sid):
+    """Apply one stored seed to a private copy of /repo and run every quick check on the copy."""
+    import shutil
+    import tempfile
+
+    d = os.path.join(SEEDED, sid)
+    patch = os.path.join(d, "patch.diff")
+    tmp = tempfile.mkdtemp(prefix="pgv-seed-")
+    try:
+        dst = os.path.join(tmp, "repo")
+        shutil.copytree("/repo", dst, ignore=shutil.ignore_patterns(".git", "__pycache__", ".pytest_cache", "*.pyc", ".cache.pygopherd*"))
+        sh("git init -q", cwd=dst)
+        r = sh(f"git apply {patch}", cwd=dst)
         if r.returncode:
-            print(f"{sid}: patch does not apply: {r.stderr.strip()[:200]}")
+            return sid, None, r.stderr.strip()[:200]
+        out = subprocess.run(["/venv/bin/python", "-m", "pgv", "all", "--no-write"], cwd=HERE, env=dict(os.environ, PGV_REPO=dst),
+                             capture_output=True, text=True).stdout
+        return sid, out, ""
+    finally:
+        shutil.rmtree(tmp, ignore_errors=True)
+
+
+def main():
+    from concurrent.futures import ThreadPoolExecutor
+
+    ids = sys.argv[1:] or sorted(d for d in os.listdir(SEEDED) if os.path.isfile(os.path.join(SEEDED, d, "patch.diff")))
+    with ThreadPoolExecutor(max_workers=min(14, os.cpu_count() or 4)) as ex:
+        results = list(ex.map(run_one, ids))
+    for sid, out, err in results:
+        meta_path = os.path.join(SEEDED, sid, "meta.json")
+        meta = json.load(open(meta_path)) if os.path.exists(meta_path) else {"id": sid}
+        if out is None:
+            print(f"{sid}: patch does not apply: {err}")
             meta["caught_by"] = "patch does not apply to the current /repo"
         else:
-            try:
-                out = sh(f"cd {HERE} && /venv/bin/python -m pgv all --no-write").stdout
-            finally:
-                sh("git -C /repo checkout -- .")
             caught = re.findall(r"^(C\d+) \[quick\].*violations=[1-9]", out, re.M)
             errors = re.findall(r"^ANALYSIS-ERROR.*", out, re.M)
             reports = [l.strip()[:200] for l in re.findall(r"^  rule=.*", out, re.M)][:8]
